@@ -93,10 +93,12 @@ def main():
     ap.add_argument("--tier", default="quick")
     ap.add_argument("--jobs", type=int, default=2)
     ap.add_argument("--baseline", action="store_true")
-    ap.add_argument("--file", default=os.path.join(VERIF, "selftest", "mutations.json"))
+    ap.add_argument("--file", help="one mutation file (default: every selftest/*.json)")
     ap.add_argument("--props", help="comma list: run these checks instead of the mutation's own property")
     args = ap.parse_args()
-    muts = json.load(open(args.file))
+    import glob
+    files = [args.file] if args.file else sorted(glob.glob(os.path.join(VERIF, "selftest", "*.json")))
+    muts = [m for f in files for m in json.load(open(f))]
     if args.only:
         want = set(args.only.upper().split(","))
         muts = [m for m in muts if m["property"] in want]
